@@ -2,7 +2,9 @@ package c20
 
 import (
 	"fmt"
+	"runtime"
 	"sync"
+	"sync/atomic"
 	"testing"
 
 	"github.com/codelaboratoryltd/bng/pkg/nexus"
@@ -13,7 +15,7 @@ import (
 // the same pair, Get agrees with what was told, no pair is told to two NTEs, and releasing every NTE returns the
 // allocator to empty (no pair stays reserved for nobody).
 func TestVLANConcurrentSameKey(t *testing.T) {
-	rounds := run.Pick(3000, 60000)
+	rounds := run.Pick(6000, 100000)
 	rng := run.Rand("vlan-conc")
 	for r := 0; r < rounds; r++ {
 		v := nexus.NewVLANAllocator(nexus.VLANAllocatorConfig{
@@ -21,22 +23,24 @@ func TestVLANConcurrentSameKey(t *testing.T) {
 			CTagRange: nexus.VLANRange{Start: 10, End: 13},
 		})
 		nNTE := 1 + rng.IntN(3)
-		callers := 2 + rng.IntN(5)
+		callers := 2 + rng.IntN(7)
 		type told struct {
 			nte  string
 			s, c uint16
 			err  error
 		}
 		res := make([]told, callers)
-		var start, done sync.WaitGroup
-		start.Add(1)
+		var done sync.WaitGroup
+		var ready, goFlag atomic.Int32 // spin barrier: all callers leave together
 		for i := 0; i < callers; i++ {
 			nte := fmt.Sprintf("nte-%d", i%nNTE)
 			i := i
 			done.Add(1)
 			go func() {
 				defer done.Done()
-				start.Wait()
+				ready.Add(1)
+				for goFlag.Load() == 0 {
+				}
 				a, err := v.Allocate(nte)
 				res[i] = told{nte: nte, err: err}
 				if err == nil && a != nil {
@@ -44,7 +48,10 @@ func TestVLANConcurrentSameKey(t *testing.T) {
 				}
 			}()
 		}
-		start.Done()
+		for int(ready.Load()) < callers {
+			runtime.Gosched()
+		}
+		goFlag.Store(1)
 		done.Wait()
 		run.Eval()
 		run.Count("vlan_concurrent_rounds", 1)
